@@ -107,8 +107,15 @@ def balance_at(ctx, net, ss, label, sig, tol=1e-6):
 @st.composite
 def xfmt_cases(draw):
     net = draw(gnet.networks(max_buses=8))
+    xf3 = None
+    if draw(st.integers(0, 2)) == 0:
+        # a three-winding transformer between three distinct buses (RAW only): star-leg impedances, turns ratios, one phase shift
+        xf3 = dict(sel=[draw(st.integers(0, 50)) for _ in range(2)],
+                   z=[(draw(st.sampled_from([0.0, 0.004, 0.01])), draw(st.sampled_from([0.05, 0.08, 0.12, 0.2]))) for _ in range(3)],
+                   windv=[draw(st.sampled_from([1.0, 1.0, 0.95, 1.05, 1.1])) for _ in range(3)],
+                   ang=[draw(st.sampled_from([0.0, 0.0, -5.0, 3.0])), 0.0, 0.0], u=draw(st.sampled_from([1, 1, 1, 0])))
     return dict(net=net, fmt=draw(st.sampled_from(['raw', 'raw', 'm', 'mpc_export'])), cw=draw(st.sampled_from([1, 2, 3])),
-                cz=draw(st.sampled_from([1, 2])))
+                cz=draw(st.sampled_from([1, 2])), xf3=xf3)
 
 
 def xfmt_case(ctx, c):
@@ -134,9 +141,37 @@ def xfmt_case(ctx, c):
                 ln['g1'] += ln['g'] / 2
                 ln['g2'] += ln['g'] / 2
                 ln['g'] = 0.0
-        ss_nat = build.build_static(net, rc={'PFlow': dict(report=0, tol=1e-10), 'Bus': dict(flat_start=1)}, permute=False)
+        star = None
+        if c.get('xf3') and len(net['buses']) >= 3:
+            # the native twin of a three-winding transformer: a star bus and three two-winding legs (ratio w_i : 1 towards
+            # the star point). The star bus takes the number ANDES documents for it (K + 1), so K is the highest bus number.
+            ids = sorted(b['idx'] for b in net['buses'])
+            kk = ids[-1]
+            rest = ids[:-1]
+            i = rest[c['xf3']['sel'][0] % len(rest)]
+            rest2 = [b for b in rest if b != i]
+            j = rest2[c['xf3']['sel'][1] % len(rest2)]
+            kvs = {b['idx']: b['Vn'] for b in net['buses']}
+            star = kk + 1
+            x3 = c['xf3']
+            net['xf3'] = [dict(buses=[i, j, kk], z=[list(z) for z in x3['z']], windv=list(x3['windv']), ang=list(x3['ang']), u=x3['u'])]
+            nat = copy.deepcopy(net)
+            nat.pop('xf3')
+            nat['buses'].append(dict(idx=star, Vn=1.0, v0=1.0, a0=0.0, u=1))
+            for q, (bq, (rq, xq), wq, aq) in enumerate(zip([i, j, kk], x3['z'], x3['windv'], x3['ang'])):
+                nat['lines'].append(dict(idx='X3_%d' % q, bus1=bq, bus2=star, Sn=net['mva'], Vn1=kvs[bq], Vn2=1.0, r=rq, x=xq, b=0.0, g=0.0,
+                                         b1=0.0, g1=0.0, b2=0.0, g2=0.0, tap=wq, phi=aq * np.pi / 180.0, u=x3['u']))
+            for key in ('order', 'model_order'):
+                nat.pop(key, None)
+            sig['three_winding'] = True
+            sig['three_winding_kv_differ'] = len(set([kvs[i], kvs[j], kvs[kk]])) > 1
+            ctx.count('raw:three_winding' + (':kv_differ' if sig['three_winding_kv_differ'] else ''))
+        else:
+            nat = net
+        ss_nat = build.build_static(nat, rc={'PFlow': dict(report=0, tol=1e-10), 'Bus': dict(flat_start=1)}, permute=False)
         ref_ok, ref_v = solve_loaded(ss_nat)
         text = rawio.write_raw(net, cw=c['cw'], cz=c['cz'])
+        net = nat
         path = os.path.join(d, 'g-%d.raw' % os.getpid())
     elif c['fmt'] == 'm':
         for ln in net['lines']:
